@@ -169,8 +169,6 @@ def run(ctx, replay):
         for f in fs:
             f.result()
         base_cases, mut_cases = gb.result(), gm.result()
-    for c in base_cases + mut_cases:
-        ctx.distinct(json.dumps(c, sort_keys=True))
     ctx.count("G", base_cases=len(base_cases), mutation_classes=len(mut_cases),
               sweep_shapes=len(set(json.dumps(c["shape"], sort_keys=True) for c in mut_cases)))
     # ---- drivers (sharded: signing costs ~4 ms a document)
@@ -225,13 +223,16 @@ def run(ctx, replay):
     negative_samples(ctx, e_base + e_mut)
     ctx.count("T", lines=total, lines_with_differences=nv, random_lines=len(e_rand), mutations_accepted_with_same_payload=len(acc),
               panics_recovered=sum(1 for e in e_base + e_mut + e_rand if e.get("panic")))
+    for e in e_base + e_mut + e_rand:     # distinct inputs given to Verify: (document, scenario, mutation)
+        ctx.distinct("%s/%s/%s/%s/%s/%s" % (json.dumps(shapes.get(e["sid"]), sort_keys=True), e["scen"], e["kind"], e.get("off"), e.get("nb"),
+                                            e["sid"] if "random" in (shapes.get(e["sid"]) or {}) else ""))
     ctx.cov["traces_validated_against_impl"] = total
     ctx.cov["evaluations"] = total
     ctx.cov["exhaustive"] = not quick
     ctx.cov["rule"] = ("%d base cases = every shape (2 key sets x unicode x nesting x 3 white-space layouts x 4 look-alike placements x 4 "
                        "signature times) x 5 key scenarios: sign, verify, valid JSON, fields exposed; %d mutation classes = %d sweep shapes x 5 "
                        "scenarios x 4 regions x {substitute, insert, delete}, concretised %s; %d random documents with %d random canonical "
-                       "mutations each; distinct = TLC cases" % (
+                       "mutations each; distinct = distinct (document, scenario, mutation) inputs given to Verify" % (
                            len(base_cases), len(mut_cases), len(set(json.dumps(c["shape"], sort_keys=True) for c in mut_cases)),
                            "at every byte of the region with every replacement value (scenario right) / at 5 positions (other scenarios)" if not quick else
                            "at every byte of separator and tail, every 3rd byte (random phase) of payload and signature, bit flip + 1 random value "
